@@ -1,18 +1,27 @@
-"""Seed-flow translator for C10 (used by harness/c10.py:translate).
+"""Seed-flow translator for C10 (used by harness/c10.py:translate) — fail-safe version.
 
-Parses the Python sources under `common.REPO/python/numqi` with `ast` and emits, for every function / method /
-class that takes a `seed` (or a generator) parameter, one term of the DSL of `lean/NumqiModel/SeedFlow.lean`
-into `lean/NumqiModel/Generated/SeedPrograms.lean`.
+Parses the Python sources under `common.REPO/python/numqi` with `ast` and emits, for every function / method / class of the
+anchored files that takes a `seed` (or a generator) parameter — and for every other function of those files that creates a
+generator or touches a global one — one term of the DSL of `lean/NumqiModel/SeedFlow.lean` into
+`lean/NumqiModel/Generated/SeedPrograms.lean`.
 
-Bodies come from the AST.  Names used as callees are resolved the way Python resolves them: the dotted name is
-looked up in the globals of the (imported) defining module, so `numqi.optimize.minimize`, `scipy.optimize.minimize`,
-`get_numpy_rng` (imported with `from ._public import …`) and `self.method` are told apart by the object they denote,
-and the arguments of a call are bound to the callee's parameters with `inspect.signature(...).bind_partial`, which
-is what decides which parameter a positionally passed generator lands in.
+Classification is *closed-world*: every call expression inside a translated body is put into exactly one class
 
-Anything that cannot be resolved and is handed a generator becomes `unknownCall` (not closed).
+  (a) draw from a tracked explicit generator                      -> `draw v` / `drawInt v` / `mkRng`
+  (b) known pure: an explicit allow-list (PURE_MODULES, PURE_BUILTINS, PURE_METHODS, nested defs already inlined,
+      calls on user-supplied arguments = contract)                 -> nothing
+  (c) known global-state draw (np.random.*, random.*, torch.rand*, in-place tensor initialisers, scipy.stats `.rvs`,
+      torch.nn.init.*, generators built from None)                 -> `drawGlobal g` / `mkRng _ .none`
+  (s) a numqi callee: seeded -> `call f <what its seed parameter receives>`; unseeded -> its own body is translated the
+      same way and its effects are spliced in
+  (d) anything else                                                -> `unknownCall`  (not closed)
+
+Names are resolved the way Python resolves them (globals of the imported defining module, local aliases, local imports,
+`functools.partial`, `self.<attr>` through the class and through `self.<attr> = C(...)` assignments), arguments are bound with
+`inspect.signature(...).bind_partial`.  Rebinding of the seed parameter or of a generator variable is tracked.
 """
 import ast
+import builtins
 import importlib
 import inspect
 import os
@@ -26,10 +35,63 @@ SEED_PARAMS = ('seed',)
 RNG_PARAMS = ('np_rng', 'rng')
 DRAWINT_METHODS = {'randint', 'integers', 'randrange', 'getrandbits'}
 NP_RANDOM_CONSTRUCTORS = {'default_rng', 'RandomState', 'Generator'}
-NP_RANDOM_INERT = {'SeedSequence', 'PCG64', 'MT19937', 'Philox', 'SFC64', 'BitGenerator', 'PCG64DXSM', 'get_state', 'get_bit_generator'}
+NP_RANDOM_INERT = {'SeedSequence', 'PCG64', 'MT19937', 'Philox', 'SFC64', 'BitGenerator', 'PCG64DXSM'}
 PY_RANDOM_CONSTRUCTORS = {'Random'}
+# torch functions that consume the global torch generator
 TORCH_RANDOM = {'rand', 'randn', 'randint', 'randperm', 'rand_like', 'randn_like', 'randint_like', 'normal', 'bernoulli', 'multinomial', 'poisson',
-                'manual_seed', 'seed', 'dropout'}
+                'manual_seed', 'seed', 'dropout', 'initial_seed', 'set_rng_state', 'rrelu', 'alpha_dropout', 'feature_alpha_dropout'}
+# in-place / method forms that draw from a global generator, whatever the receiver is
+RANDOM_METHODS_TORCH = {'uniform_', 'normal_', 'random_', 'bernoulli_', 'exponential_', 'cauchy_', 'geometric_', 'log_normal_', 'multinomial',
+                        'bernoulli', 'dropout', 'dropout_'}
+RANDOM_METHODS_NUMPY = {'rvs'}
+
+# (b) modules whose members are pure (deterministic, no generator state) — checked one by one; numpy.random / scipy.stats /
+# torch random members are carved out above.  Sub-modules not listed are NOT pure by default.
+PURE_MODULES = {
+    # value: set of allowed public sub-module paths ('' = the top level); '*' = every sub-module except those in PURE_DENY
+    'numpy': {'*'}, 'torch': {'*'}, 'tqdm': {'*'}, 'cvxpy': {'*'}, 'sympy': {'*'}, 'opt_einsum': {'*'},
+    'scipy': {'linalg', 'special', 'sparse', 'sparse.linalg', 'optimize', 'integrate', 'interpolate', 'constants', 'lib.sparse'},
+    'math': {''}, 'cmath': {''}, 'itertools': {''}, 'functools': {''}, 'operator': {''}, 'collections': {''},
+    'contextlib': {''}, 'time': {''}, 'copy': {''}, 'warnings': {''},
+    'posixpath': {''}, 'genericpath': {''}, 'ntpath': {''}, 'io': {''},
+    'concurrent': {'futures'}, 'multiprocessing': {'*'}, 'numbers': {''}, 're': {''}, 'os': {'', 'path'}, 'json': {''}, 'pickle': {''},
+}
+# sub-namespaces of the '*' modules that are NOT pure
+PURE_DENY = {
+    'numpy': ('random', 'f2py', 'distutils', 'ctypeslib'),
+    'torch': ('random', 'distributions', 'nn.init', 'utils.data', 'quasirandom', 'distributed', 'hub', 'cuda.random', 'mps', 'xpu'),
+    'sympy': ('stats', 'core.random', 'utilities.randtest', 'testing'),
+    'cvxpy': (), 'tqdm': (), 'opt_einsum': (), 'multiprocessing': (),
+}
+# members of pure modules that are nevertheless not pure
+IMPURE_MEMBERS = {('torch', 'nn', 'Dropout'), ('torch', 'nn', 'RReLU'), ('torch', 'nn.functional', 'dropout'), ('torch', 'nn.functional', 'rrelu'),
+                  ('torch', '', 'empty'), ('torch', '', 'empty_like'), ('numpy', '', 'empty'), ('numpy', '', 'empty_like')}
+# torch.nn layer constructors initialise their parameters from the global torch generator
+TORCH_NN_PARAM_LAYERS = {'Linear', 'Bilinear', 'Conv1d', 'Conv2d', 'Conv3d', 'ConvTranspose1d', 'ConvTranspose2d', 'ConvTranspose3d', 'Embedding',
+                         'EmbeddingBag', 'RNN', 'LSTM', 'GRU', 'RNNCell', 'LSTMCell', 'GRUCell', 'Transformer', 'MultiheadAttention',
+                         'TransformerEncoderLayer', 'TransformerDecoderLayer'}
+PURE_BUILTINS = {'len', 'range', 'int', 'float', 'complex', 'bool', 'str', 'bytes', 'tuple', 'list', 'dict', 'set', 'frozenset', 'sorted', 'reversed',
+                 'enumerate', 'zip', 'min', 'max', 'sum', 'abs', 'round', 'pow', 'divmod', 'isinstance', 'issubclass', 'hasattr', 'callable', 'print',
+                 'bin', 'hex', 'oct', 'ord', 'chr', 'all', 'any', 'iter', 'next', 'type', 'id', 'repr', 'format', 'slice', 'super', 'map', 'filter',
+                 'open', 'object', 'NotImplementedError', 'RuntimeError', 'ValueError', 'TypeError', 'AssertionError', 'KeyError', 'IndexError', 'Exception', 'hash', 'vars'}
+# methods of values (ndarray, torch.Tensor, list, dict, set, str, tuple, OptimizeResult, torch modules/optimisers, cvxpy objects, tqdm bars, slices …)
+PURE_METHODS = {
+    # ndarray / tensor
+    'amax', 'amin', 'reshape', 'conj', 'conjugate', 'transpose', 'sum', 'prod', 'copy', 'astype', 'view', 'tolist', 'item', 'detach', 'numpy', 'cpu', 'cuda', 'to',
+    'backward', 'zero_', 'copy_', 'fill_', 'clone', 'real', 'imag', 'max', 'min', 'any', 'all', 'mean', 'std', 'var', 'dot', 'flatten', 'ravel',
+    'squeeze', 'unsqueeze', 'argsort', 'argmax', 'argmin', 'nonzero', 'cumsum', 'cumprod', 'clip', 'round', 'trace', 'diagonal', 'swapaxes', 'repeat',
+    'take', 'fill', 'sort', 'numel', 'size', 'dim', 'permute', 'contiguous', 'type', 'double', 'float', 'long', 'int', 'bool', 'abs', 'sqrt', 'exp',
+    'log', 'sin', 'cos', 'norm', 'diag', 'tobytes', 'byteswap', 'requires_grad_', 'is_complex', 'is_floating_point', 'element_size', 'toarray',
+    'todense', 'tocoo', 'tocsr', 'tocsc', 'getH', 'expand', 'flip', 'matmul', 'mm', 'bmm', 'einsum', 'index_select', 'masked_fill', 'split', 'chunk',
+    # containers / str
+    'append', 'extend', 'insert', 'pop', 'remove', 'clear', 'index', 'count', 'reverse', 'items', 'keys', 'values', 'get', 'update', 'setdefault',
+    'add', 'discard', 'union', 'intersection', 'difference', 'issubset', 'join', 'lower', 'upper', 'strip', 'rjust', 'ljust', 'zfill', 'startswith',
+    'endswith', 'replace', 'format', 'encode', 'decode', 'bit_length', 'from_bytes', 'to_bytes',
+    # torch modules / optimisers / schedulers
+    'parameters', 'named_parameters', 'zero_grad', 'step', 'state_dict', 'load_state_dict', 'train', 'eval', 'register_buffer', '__init__',
+    # cvxpy / tqdm / executors / misc
+    'solve', 'set_postfix', 'set_postfix_str', 'set_description', 'close', 'submit', 'result', 'spawn',
+}
 
 
 class Entity:
@@ -41,10 +103,10 @@ class Entity:
         self.cls = cls              # class object for methods / classes
         self.path = path
         self.seed_param = seed_param
-        self.role = role            # 'seed' | 'rng'
+        self.role = role            # 'seed' | 'rng' | 'none'
         self.index = None
         self.stmts = None
-        self.notes = []
+        self.listed = False
 
     @property
     def name(self):
@@ -77,6 +139,37 @@ def chain_of(node):
     return None
 
 
+def root_name(node):
+    """the Name at the bottom of an attribute / subscript / call chain (the 'receiver root'), else None"""
+    while True:
+        if isinstance(node, ast.Attribute):
+            node = node.value
+        elif isinstance(node, ast.Subscript):
+            node = node.value
+        elif isinstance(node, ast.Call):
+            node = node.func
+        elif isinstance(node, ast.Name):
+            return node.id
+        else:
+            return None
+
+
+def mentions_randomness(fn_node):
+    """cheap syntactic test used to find functions that touch generators although they have no seed parameter"""
+    for n in ast.walk(fn_node):
+        if isinstance(n, ast.Attribute) and n.attr in ('default_rng', 'RandomState', 'get_numpy_rng', 'get_random_rng', 'manual_seed'):
+            return True
+        if isinstance(n, ast.Name) and n.id in ('get_numpy_rng', 'get_random_rng', 'default_rng'):
+            return True
+        if isinstance(n, ast.Attribute) and isinstance(n.value, ast.Attribute) and n.value.attr == 'random' and isinstance(n.value.value, ast.Name) and n.value.value.id in ('np', 'numpy'):
+            return True
+        if isinstance(n, ast.Attribute) and isinstance(n.value, ast.Name) and n.value.id == 'random':
+            return True
+        if isinstance(n, ast.Attribute) and isinstance(n.value, ast.Name) and n.value.id == 'torch' and n.attr in TORCH_RANDOM:
+            return True
+    return False
+
+
 class Translator:
     def __init__(self, repo):
         self.repo = repo
@@ -84,11 +177,14 @@ class Translator:
         self.entities = {}          # key -> Entity
         self.order = []
         self.normalisers = {}
-        self.unresolved = {}        # callee text -> count  (calls through objects; assumed not to draw)
+        self.unknown = []           # (entity name, text) for every unknownCall emitted in a listed entity
+        self.contracts = {}         # calls on user-supplied arguments: text -> count
         self.callbacks = []         # user callbacks handed a generator
-        self.taint_cache = {}
+        self.summary_cache = {}
+        self.summary_stack = []
         self.ast_cache = {}
         self.loop_id = 0
+        self.used_pure = set()      # allow-list entries actually used (evidence)
 
     # ------------------------------------------------------------------ loading
     def load(self):
@@ -133,28 +229,42 @@ class Translator:
     def scan_file(self, rel, listed):
         tree = self.parse(rel)
         modname = self.module_of(rel)
-        has_seed = any(isinstance(n, (ast.FunctionDef,)) and seed_param_of(n, False)[0] for n in ast.walk(tree))
-        if not has_seed:
+        def wanted(fn, skip_self):
+            sp, role = seed_param_of(fn, skip_self)
+            if sp:
+                return sp, role
+            if listed and mentions_randomness(fn):
+                return None, 'none'
+            return None, None
+        cand = False
+        for node in tree.body:
+            if isinstance(node, ast.FunctionDef) and wanted(node, False)[1]:
+                cand = True
+            if isinstance(node, ast.ClassDef):
+                for sub in node.body:
+                    if isinstance(sub, ast.FunctionDef) and wanted(sub, True)[1]:
+                        cand = True
+        if not cand:
             return
         try:
             module = importlib.import_module(modname)
-        except Exception as e:          # optional dependency missing etc.
+        except Exception:
             if listed:
                 raise
             return
         for node in tree.body:
             if isinstance(node, ast.FunctionDef):
-                sp, role = seed_param_of(node, False)
-                if sp and id(getattr(module, node.name, None)) not in self.normalisers:
+                sp, role = wanted(node, False)
+                if role and id(getattr(module, node.name, None)) not in self.normalisers:
                     self.add(Entity((modname, node.name), 'function', node, module, None, rel, sp, role), listed)
             elif isinstance(node, ast.ClassDef):
                 cls = getattr(module, node.name, None)
                 for sub in node.body:
                     if isinstance(sub, ast.FunctionDef):
-                        sp, role = seed_param_of(sub, True)
-                        if not sp:
+                        sp, role = wanted(sub, True)
+                        if not role:
                             continue
-                        if sub.name == '__init__':
+                        if sub.name == '__init__' and role != 'none':
                             self.add(Entity((modname, node.name), 'class', node, module, cls, rel, sp, role), listed)
                         else:
                             self.add(Entity((modname, node.name + '.' + sub.name), 'method', sub, module, cls, rel, sp, role), listed)
@@ -165,215 +275,185 @@ class Translator:
         ent.index = len(self.order)
         self.order.append(ent)
 
-    # ------------------------------------------------------------------ resolution
-    def resolve(self, chain, ent, local_names):
-        """object denoted by a dotted name inside entity `ent` (None if it is a local / cannot be resolved)"""
-        if chain is None:
-            return None
-        if chain[0] in ('self', 'cls') and ent.cls is not None:
-            obj = ent.cls
-            for a in chain[1:]:
-                try:
-                    obj = inspect.getattr_static(obj, a)
-                except AttributeError:
-                    return None
-                if isinstance(obj, (staticmethod, classmethod)):
-                    obj = obj.__func__
-            return obj if len(chain) > 1 else None
-        if chain[0] in local_names:
-            return None
-        g = ent.module.__dict__
-        if chain[0] in g:
-            obj = g[chain[0]]
-        elif hasattr(__builtins__, chain[0]) if not isinstance(__builtins__, dict) else chain[0] in __builtins__:
-            return None      # builtins never draw
-        else:
-            return None
-        for a in chain[1:]:
-            try:
-                obj = getattr(obj, a)
-            except Exception:
-                return None
-        return obj
-
-    def classify_external(self, chain, ent, local_names):
-        """('numpy'|'python'|'torch', attr) when the chain names a member of a random-number module, else None"""
-        if chain is None or chain[0] in local_names or chain[0] in ('self', 'cls'):
-            return None
-        g = ent.module.__dict__
-        root = g.get(chain[0])
-        if root is None:
-            return None
-        if isinstance(root, types.ModuleType):
-            # walk modules as far as possible
-            obj, i = root, 1
-            while i < len(chain) and isinstance(getattr(obj, chain[i], None), types.ModuleType):
-                obj = getattr(obj, chain[i]); i += 1
-            rest = chain[i:]
-            if obj is self.np.random and rest:
-                return ('numpy', rest[0])
-            if obj is self.pyrandom and rest:
-                return ('python', rest[0])
-            if self.torch is not None:
-                if obj is self.torch and rest and rest[0] in TORCH_RANDOM:
-                    return ('torch', rest[0])
-                if obj is getattr(self.torch.nn, 'init', None) and rest:
-                    return ('torch', 'nn.init.' + rest[0])
-                if obj is getattr(self.torch, 'random', None) and rest and rest[0] in ('manual_seed', 'seed', 'set_rng_state'):
-                    return ('torch', rest[0])
-        else:
-            # `from numpy.random import rand`, `from random import randint`
-            mod = getattr(root, '__module__', None) or ''
-            selfobj = getattr(root, '__self__', None)
-            if len(chain) == 1:
-                if selfobj is not None and type(selfobj).__name__ == 'RandomState' and selfobj is getattr(self.np.random.mtrand, '_rand', None):
-                    return ('numpy', chain[0])
-                if root is self.np.random.default_rng:
-                    return ('numpy', 'default_rng')
-                if selfobj is not None and isinstance(selfobj, self.pyrandom.Random) and selfobj is getattr(self.pyrandom, '_inst', None):
-                    return ('python', chain[0])
-                if root is self.pyrandom.Random:
-                    return ('python', 'Random')
-        return None
-
-    def entity_of_obj(self, obj):
-        if obj is None:
-            return None
+    # ------------------------------------------------------------------ object helpers
+    @staticmethod
+    def unwrap(obj):
         if isinstance(obj, (staticmethod, classmethod)):
             obj = obj.__func__
         if inspect.ismethod(obj):
             obj = obj.__func__
+        try:
+            obj = inspect.unwrap(obj)
+        except Exception:
+            pass
+        return obj
+
+    def entity_of_obj(self, obj):
+        if obj is None:
+            return None
+        obj = self.unwrap(obj)
         mod = getattr(obj, '__module__', None)
         qn = getattr(obj, '__qualname__', None)
         if not mod or not qn or not str(mod).startswith('numqi'):
             return None
         return self.entities.get((mod, qn))
 
-    # ------------------------------------------------------------------ taint of unseeded numqi callees
+    def module_class(self, obj):
+        """classification of an object that lives in an external module: 'pure' | ('numpy'|'python'|'torch') | 'fresh-ctor' | None (unknown)"""
+        if isinstance(obj, (staticmethod, classmethod)):
+            obj = obj.__func__
+        mod = getattr(obj, '__module__', None)
+        name = getattr(obj, '__name__', None) or getattr(obj, '__qualname__', None)
+        selfobj = getattr(obj, '__self__', None)
+        # bound methods of the global generators
+        if selfobj is not None and type(selfobj).__name__ == 'RandomState' and selfobj is getattr(self.np.random.mtrand, '_rand', None):
+            return 'numpy'
+        if selfobj is not None and isinstance(selfobj, self.pyrandom.Random) and selfobj is getattr(self.pyrandom, '_inst', None):
+            return 'python'
+        if obj is self.np.random.default_rng or obj is self.np.random.RandomState or obj is self.np.random.Generator or obj is self.pyrandom.Random:
+            return 'ctor'
+        if obj is getattr(self.pyrandom, 'SystemRandom', None):
+            return 'fresh'
+        if mod is None and selfobj is not None and isinstance(selfobj, types.ModuleType):
+            mod = selfobj.__name__
+        if mod is None:
+            mod = type(obj).__module__ if not isinstance(obj, type) else None
+        if not mod:
+            return None
+        mod = str(mod)
+        if mod.startswith('numpy.random') or mod == 'numpy.random.mtrand':
+            return 'numpy' if name not in NP_RANDOM_INERT else 'pure'
+        if mod == 'random':
+            return 'python'
+        if mod.startswith('scipy.stats'):
+            return None
+        if mod.startswith('torch'):
+            if name in TORCH_RANDOM or mod.startswith('torch.nn.init') or mod.startswith('torch.distributions') or mod.startswith('torch.random'):
+                return 'torch'
+            if mod.startswith('torch.nn.modules') and name in TORCH_NN_PARAM_LAYERS:
+                return 'torch'
+        top = mod.split('.')[0]
+        if top.startswith('_') and top.lstrip('_') in PURE_MODULES:
+            top = top.lstrip('_'); mod = mod.lstrip('_')
+        if top in PURE_MODULES:
+            sub = mod[len(top) + 1:] if '.' in mod else ''
+            # private implementation modules (numpy._core.fromnumeric, torch._C, scipy.linalg._basic …) count as their public parent
+            parts = [p for p in sub.split('.') if p and not p.startswith('_')]
+            pub = '.'.join(parts)
+            if not parts and sub:
+                pub = '.'.join(p.lstrip('_') for p in sub.split('.') if p)
+            if (top, '', name) in IMPURE_MEMBERS or (top, pub, name) in IMPURE_MEMBERS:
+                return None
+            allowed = PURE_MODULES[top]
+            if '*' in allowed:
+                if any(pub == d or pub.startswith(d + '.') for d in PURE_DENY.get(top, ())):
+                    return None
+                self.used_pure.add(top + '.*')
+                return 'pure'
+            if pub in allowed or any(pub.startswith(a + '.') for a in allowed if a) or (pub == '' and '' in allowed):
+                self.used_pure.add(top + ('.' + pub if pub else ''))
+                return 'pure'
+        if mod == 'builtins':
+            return 'pure' if name in PURE_BUILTINS else None
+        return None
+
+    # ------------------------------------------------------------------ summaries of unseeded numqi callees
     def func_ast(self, obj):
         try:
             src = textwrap.dedent(inspect.getsource(obj))
-            return ast.parse(src)
+            tree = ast.parse(src)
         except Exception:
             return None
+        if getattr(obj, '__name__', '') == '<lambda>':
+            lams = [n for n in ast.walk(tree) if isinstance(n, ast.Lambda)]
+            if len(lams) != 1:
+                return None
+            fd = ast.FunctionDef(name='_lambda', args=lams[0].args, body=[ast.Return(value=lams[0].body)], decorator_list=[], returns=None, type_comment=None)
+            return ast.fix_missing_locations(fd)
+        for n in tree.body:
+            if isinstance(n, (ast.FunctionDef, ast.AsyncFunctionDef)):
+                return n
+        return None
 
-    def taint(self, obj, depth=0, stack=()):
-        """set of {'numpy','python','torch','fresh'} reachable from an unseeded numqi function / class"""
-        if isinstance(obj, (staticmethod, classmethod)):
-            obj = obj.__func__
+    def summary(self, obj):
+        """effects of an unseeded numqi function / class: subset of {'numpy','python','torch','fresh','unknown'}"""
+        obj = self.unwrap(obj)
+        owner = None
         if inspect.isclass(obj):
-            init = inspect.getattr_static(obj, '__init__', None)
-            if not isinstance(init, types.FunctionType):
-                return set()
             owner = obj
-            obj = init
-        else:
-            owner = None
+            eff = set()
+            try:
+                import torch
+                is_mod = issubclass(obj, torch.nn.Module)
+            except Exception:
+                is_mod = False
+            init = inspect.getattr_static(obj, '__init__', None)
+            if isinstance(init, types.FunctionType):
+                eff |= self.summary_fn(init, owner)
+            elif init is not object.__init__ and init is not None and not is_mod:
+                eff.add('unknown')
+            return eff
         if not isinstance(obj, types.FunctionType):
-            return set()
-        mod = getattr(obj, '__module__', '') or ''
-        if not mod.startswith('numqi'):
-            return set()
-        key = (mod, obj.__qualname__)
-        if key in self.taint_cache:
-            return self.taint_cache[key]
-        if key in stack or depth > 6:
-            return set()
-        tree = self.func_ast(obj)
-        out = set()
-        if tree is None:
-            self.taint_cache[key] = out
-            return out
-        module = sys.modules.get(mod)
-        cls = owner
-        if cls is None and '.' in obj.__qualname__ and module is not None:
-            cls = getattr(module, obj.__qualname__.split('.')[0], None)
-        fake = Entity(key, 'function', None, module, cls if inspect.isclass(cls) else None, '', None, None)
-        local_names = {a.arg for n in ast.walk(tree) if isinstance(n, ast.arguments) for a in n.posonlyargs + n.args + n.kwonlyargs}
-        for n in ast.walk(tree):
-            if not isinstance(n, ast.Call):
-                continue
-            chain = chain_of(n.func)
-            ext = self.classify_external(chain, fake, local_names) if module is not None else None
-            if ext is not None:
-                lib, attr = ext
-                if lib == 'numpy':
-                    if attr in NP_RANDOM_CONSTRUCTORS:
-                        if self.arg_is_none_or_missing(n): out.add('fresh')
-                    elif attr not in NP_RANDOM_INERT:
-                        out.add('numpy')
-                elif lib == 'python':
-                    if attr in PY_RANDOM_CONSTRUCTORS:
-                        if self.arg_is_none_or_missing(n): out.add('fresh')
-                    elif attr == 'SystemRandom':
-                        out.add('fresh')
-                    else:
-                        out.add('python')
-                else:
-                    out.add('torch')
-                continue
-            callee = self.resolve(chain, fake, local_names) if module is not None else None
-            if callee is None:
-                continue
-            if id(callee) in self.normalisers:
-                if self.arg_is_none_or_missing(n): out.add('fresh')
-                continue
-            ce = self.entity_of_obj(callee)
-            if ce is not None:
-                bound = self.bind(callee, ce, n, {})
-                if bound is None or ce.seed_param not in bound:
-                    out.add('fresh')
-                continue
-            if isinstance(callee, (types.FunctionType, type)) or isinstance(callee, (staticmethod, classmethod)):
-                out |= self.taint(callee, depth + 1, stack + (key,))
-        self.taint_cache[key] = out
-        return out
+            return {'unknown'}
+        return self.summary_fn(obj, None)
 
-    @staticmethod
-    def arg_is_none_or_missing(call):
-        if not call.args and not call.keywords:
-            return True
-        if call.args and isinstance(call.args[0], ast.Constant) and call.args[0].value is None:
-            return True
-        return False
+    def summary_fn(self, fn, owner):
+        mod = getattr(fn, '__module__', '') or ''
+        if not mod.startswith('numqi'):
+            return {'unknown'}
+        key = (mod, fn.__qualname__)
+        if key in self.summary_cache:
+            return self.summary_cache[key]
+        if key in self.summary_stack:
+            return set()            # recursion: the effects of the cycle are collected by the outermost frame
+        if len(self.summary_stack) > 40:
+            return {'unknown'}
+        node = self.func_ast(fn)
+        module = sys.modules.get(mod)
+        if node is None or module is None:
+            self.summary_cache[key] = {'unknown'}
+            return {'unknown'}
+        cls = owner
+        if cls is None and '.' in fn.__qualname__ and '<locals>' not in fn.__qualname__:
+            cls = getattr(module, fn.__qualname__.split('.')[0], None)
+            if not inspect.isclass(cls):
+                cls = None
+        ent = Entity(key, 'function', node, module, cls, '', None, 'none')
+        ent.closure_of = fn
+        depth_before = len(self.summary_stack)
+        self.summary_stack.append(key)
+        saved = self.loop_id
+        try:
+            ctx = Ctx(self, ent)
+            ctx.enter_function(node, top=True)
+            ctx.block(node.body)
+            eff = effects_of(ctx.stmts)
+        finally:
+            self.summary_stack.pop()
+            self.loop_id = saved
+        if depth_before == 0 or key not in self.summary_stack:
+            self.summary_cache[key] = eff
+        return eff
 
     # ------------------------------------------------------------------ binding
-    def bind(self, callee, ce, call, kwdicts):
+    def bind(self, callee, ce, call_args, call_kwargs):
         """parameter name -> argument node, using the callee's real signature; None if the call cannot be bound"""
         target = callee
         drop_first = False
-        if inspect.isclass(target):
-            try:
-                sig = inspect.signature(target)
-            except (TypeError, ValueError):
-                return None
-        else:
+        if not inspect.isclass(target):
             if isinstance(target, (staticmethod, classmethod)):
                 target = target.__func__
-            try:
-                sig = inspect.signature(target)
-            except (TypeError, ValueError):
-                return None
             if ce is not None and ce.kind == 'method' and not inspect.ismethod(callee):
                 drop_first = True       # plain function taken from the class: first parameter is `self`
-        pos = []
-        for a in call.args:
-            if isinstance(a, ast.Starred):
-                return None
-            pos.append(a)
-        kw = {}
-        for k in call.keywords:
-            if k.arg is None:
-                if isinstance(k.value, ast.Name) and k.value.id in kwdicts and kwdicts[k.value.id] is not None:
-                    kw.update(kwdicts[k.value.id])
-                else:
-                    return None
-            else:
-                kw[k.arg] = k.value
+        try:
+            sig = inspect.signature(target)
+        except (TypeError, ValueError):
+            return None
+        pos = list(call_args)
         if drop_first:
             pos = [ast.Name(id='self', ctx=ast.Load())] + pos
         try:
-            ba = sig.bind_partial(*pos, **kw)
+            ba = sig.bind_partial(*pos, **call_kwargs)
         except TypeError:
             return None
         return dict(ba.arguments)
@@ -387,7 +467,6 @@ class Translator:
             ctx.block(init.body)
             for sub in ent.node.body:
                 if isinstance(sub, ast.FunctionDef) and sub.name != '__init__' and seed_param_of(sub, True)[0] is None:
-                    # every other method may run any number of times after construction
                     inner = ctx.sub()
                     inner.enter_function(sub, top=False)
                     inner.block(sub.body)
@@ -397,7 +476,6 @@ class Translator:
             ctx.enter_function(ent.node, top=True)
             ctx.block(ent.node.body)
         ent.stmts = ctx.stmts
-        ent.nvars = ctx.counter[0]
 
     def new_id(self):
         self.loop_id += 1
@@ -407,8 +485,29 @@ class Translator:
         self.load()
         for ent in self.order:
             self.loop_id = 0
+            self.current = ent
             self.translate_entity(ent)
         return self
+
+
+def effects_of(stmts):
+    eff = set()
+    for s in stmts:
+        if s[0] == 'drawGlobal':
+            eff.add(s[1])
+        elif s[0] == 'unknownCall':
+            eff.add('unknown')
+        elif s[0] == 'mkRng':
+            if s[2][0] == 'none': eff.add('fresh')
+            elif s[2][0] == 'unknown' or s[2][0] == 'param': eff.add('unknown')
+        elif s[0] == 'call':
+            if s[2][0] == 'none': eff.add('fresh')
+            elif s[2][0] in ('unknown', 'param'): eff.add('unknown')
+        elif s[0] == 'branch':
+            eff |= effects_of(s[2]) | effects_of(s[3])
+        elif s[0] == 'loop':
+            eff |= effects_of(s[2])
+    return eff
 
 
 class Ctx:
@@ -422,23 +521,34 @@ class Ctx:
             self.counter = [0]
             self.closures = {}         # local name -> (entity index, seed expr)
             self.kwdicts = {}          # local dict name -> {key: node} | None
-            self.callback_names = set()
+            self.params = set()        # user-supplied arguments (contract)
             self.local_names = set()
+            self.local_defs = set()    # nested def / lambda names (bodies inlined at definition)
+            self.aliases = {}          # local name -> python object (module / function / class)
+            self.partials = {}         # local name -> (callee object, positional nodes, keyword nodes)
+            self.instances = {}        # local name / 'self.attr' -> class object the value is an instance of
+            self.strlists = {}         # local name -> list of candidate strings (for getattr)
+            self.closure_locals = set()  # locals holding the result of an unseeded numqi function (its body, incl. returned closures, is already accounted)
             self.seed_name = None
+            self.seed_expr = {'cur': ('param',)}
         else:
-            self.vars = parent.vars
-            self.counter = parent.counter
-            self.closures = parent.closures
-            self.kwdicts = parent.kwdicts
-            self.callback_names = parent.callback_names
-            self.local_names = parent.local_names
-            self.seed_name = parent.seed_name
+            for k in ('vars', 'counter', 'closures', 'kwdicts', 'params', 'local_names', 'local_defs', 'aliases', 'partials', 'instances',
+                      'strlists', 'closure_locals', 'seed_name', 'seed_expr'):
+                setattr(self, k, getattr(parent, k))
 
     def sub(self):
         return Ctx(self.tr, self.ent, self)
 
     def emit(self, s):
         self.stmts.append(s)
+
+    def unknown(self, node, why=''):
+        try:
+            txt = ast.unparse(node)
+        except Exception:
+            txt = '<expr>'
+        self.tr.unknown.append((self.ent.name, (why + ': ' if why else '') + txt[:120]))
+        self.emit(('unknownCall',))
 
     def new_var(self, name):
         v = self.counter[0]
@@ -455,21 +565,90 @@ class Ctx:
         if args.kwarg: names.append(args.kwarg.arg)
         for n in names:
             self.local_names.add(n)
+            for d in (self.aliases, self.partials, self.instances, self.closures):
+                d.pop(n, None)
         if top:
             sp = self.ent.seed_param
             if self.ent.role == 'seed':
                 self.seed_name = sp
-            else:
-                # a helper that is handed a generator: `np_rng` is the (already normalised) seed parameter
+            elif self.ent.role == 'rng':
                 v = self.new_var(sp)
                 self.emit(('mkRng', v, ('param',)))
             for n in names:
                 if n not in (sp, 'self', 'cls'):
-                    self.callback_names.add(n)
+                    self.params.add(n)
+            if self.ent.cls is not None:
+                self.collect_instance_attrs()
         else:
             for n in names:
                 if n not in ('self', 'cls') and n not in self.vars:
-                    self.callback_names.add(n)
+                    self.params.add(n)
+
+    def collect_instance_attrs(self):
+        """`self.attr = C(...)` anywhere in the class: the attribute is an instance of C"""
+        cls = self.ent.cls
+        try:
+            src = textwrap.dedent(inspect.getsource(cls))
+            tree = ast.parse(src)
+        except Exception:
+            return
+        for n in ast.walk(tree):
+            if isinstance(n, ast.Assign) and len(n.targets) == 1 and isinstance(n.targets[0], ast.Attribute) and isinstance(n.targets[0].value, ast.Name) \
+                    and n.targets[0].value.id == 'self' and isinstance(n.value, ast.Call):
+                obj = self.resolve(chain_of(n.value.func), allow_locals=False)
+                key = 'self.' + n.targets[0].attr
+                if inspect.isclass(obj):
+                    cur = self.instances.get(key, [])
+                    if cur is not None and obj not in cur:
+                        self.instances[key] = cur + [obj]
+                elif obj is not None or chain_of(n.value.func) is None:
+                    pass
+                else:
+                    self.instances[key] = None      # assigned from something unresolved: not typed
+
+    # -- name resolution
+    def resolve(self, chain, allow_locals=True):
+        if chain is None:
+            return None
+        head = chain[0]
+        if head in ('self', 'cls') and self.ent.cls is not None:
+            if len(chain) == 1:
+                return None
+            obj = self.ent.cls
+            for i, a in enumerate(chain[1:]):
+                try:
+                    obj = inspect.getattr_static(obj, a)
+                except AttributeError:
+                    return None
+                if isinstance(obj, (staticmethod, classmethod)):
+                    obj = obj.__func__
+                if isinstance(obj, property):
+                    return None
+            return obj
+        if allow_locals and head in self.aliases:
+            obj = self.aliases[head]
+        elif allow_locals and head in self.local_names:
+            return None
+        else:
+            g = self.ent.module.__dict__
+            fn = getattr(self.ent, 'closure_of', None)
+            if fn is not None and fn.__closure__ and head in fn.__code__.co_freevars:
+                try:
+                    obj = fn.__closure__[fn.__code__.co_freevars.index(head)].cell_contents
+                except ValueError:
+                    return None
+            elif head in g:
+                obj = g[head]
+            elif hasattr(builtins, head):
+                obj = getattr(builtins, head)
+            else:
+                return None
+        for a in chain[1:]:
+            try:
+                obj = getattr(obj, a)
+            except Exception:
+                return None
+        return obj
 
     # -- seed expressions
     def name_of(self, node):
@@ -489,8 +668,8 @@ class Ctx:
             return ('unknown',)
         nm = self.name_of(node)
         if nm is not None:
-            if nm == self.seed_name:
-                return ('param',)
+            if self.seed_name is not None and nm == self.seed_name:
+                return self.seed_expr['cur']
             if nm in self.vars:
                 return ('var', self.vars[nm])
             return ('unknown',)
@@ -498,7 +677,7 @@ class Ctx:
             base = self.name_of(node.func.value)
             if base in self.vars and node.func.attr in DRAWINT_METHODS:
                 return ('drawInt', self.vars[base])
-        if isinstance(node, ast.Call) and isinstance(node.func, ast.Name) and node.func.id == 'int' and len(node.args) == 1:
+        if isinstance(node, ast.Call) and isinstance(node.func, ast.Name) and node.func.id == 'int' and len(node.args) == 1 and 'int' not in self.local_names:
             return self.seedexpr(node.args[0])
         return ('unknown',)
 
@@ -511,13 +690,20 @@ class Ctx:
         tr = self.tr
         if isinstance(st, (ast.FunctionDef, ast.AsyncFunctionDef)):
             inner = self.sub()
-            inner.enter_function(st, top=False)
             self.local_names.add(st.name)
+            self.local_defs.add(st.name)
+            for d in st.decorator_list:
+                self.expr(d)
+            inner.enter_function(st, top=False)
             inner.block(st.body)
             if inner.stmts:
                 self.emit(('loop', tr.new_id(), inner.stmts))
             return
         if isinstance(st, ast.ClassDef):
+            self.unknown(st, 'class definition inside a function')
+            return
+        if isinstance(st, (ast.Import, ast.ImportFrom)):
+            self.local_import(st)
             return
         if isinstance(st, ast.If):
             self.expr(st.test)
@@ -564,74 +750,204 @@ class Ctx:
             return
         if isinstance(st, ast.AugAssign):
             self.expr(st.value)
+            self.forget(st.target)
+            return
+        if isinstance(st, (ast.Global, ast.Nonlocal)):
+            self.unknown(st, 'global/nonlocal')
+            return
+        if isinstance(st, ast.Delete):
+            for t in st.targets:
+                self.forget(t)
             return
         for child in ast.iter_child_nodes(st):
             if isinstance(child, ast.expr):
                 self.expr(child)
 
-    def bind_target(self, t):
+    def local_import(self, st):
+        for al in st.names:
+            local = al.asname or al.name.split('.')[0]
+            self.local_names.add(local)
+            try:
+                if isinstance(st, ast.Import):
+                    obj = importlib.import_module(al.name)
+                    if not al.asname:
+                        obj = importlib.import_module(al.name.split('.')[0])
+                else:
+                    base = st.module or ''
+                    if st.level:
+                        pkg = self.ent.module.__name__.rsplit('.', st.level)[0] if self.ent.module.__name__.count('.') >= st.level else self.ent.module.__name__
+                        base = pkg + ('.' + base if base else '')
+                    m = importlib.import_module(base)
+                    obj = getattr(m, al.name) if hasattr(m, al.name) else importlib.import_module(base + '.' + al.name)
+                self.aliases[local] = obj
+            except Exception:
+                self.aliases.pop(local, None)
+                self.unknown(st, 'import that cannot be resolved')
+
+    def forget(self, t):
+        """a name is rebound to something we do not track"""
         for n in ast.walk(t):
-            if isinstance(n, ast.Name):
+            if not (isinstance(n, (ast.Name, ast.Attribute)) and isinstance(getattr(n, 'ctx', None), (ast.Store, ast.Del))):
+                continue
+            nm = self.name_of(n)
+            if nm is None:
+                continue
+            if nm in self.vars:
+                del self.vars[nm]
+                self.vars_lost = True
+            if self.seed_name is not None and nm == self.seed_name:
+                self.seed_expr['cur'] = ('unknown',)
+            for d in (self.aliases, self.partials, self.instances, self.closures, self.strlists):
+                d.pop(nm, None)
+            self.kwdicts.pop(nm, None)
+            self.local_defs.discard(nm)
+            self.closure_locals.discard(nm)
+
+    def bind_target(self, t):
+        self.forget(t)
+        for n in ast.walk(t):
+            if isinstance(n, ast.Name) and isinstance(n.ctx, ast.Store):
                 self.local_names.add(n.id)
 
     def assign(self, targets, value):
         tr = self.tr
-        for t in targets:
-            self.bind_target(t)
         tname = self.name_of(targets[0]) if len(targets) == 1 else None
-        # kwargs dictionaries: `kwargs = dict(a=…, seed=np_rng)` / `{...}` ; `kwargs['x'] = …`
-        if tname is not None and isinstance(targets[0], ast.Name):
-            d = self.dict_literal(value)
-            if d is not None:
-                for v in d.values():
-                    self.expr(v)
-                self.kwdicts[tname] = d
-                return
-            elif tname in self.kwdicts:
-                self.kwdicts[tname] = None
+        simple = len(targets) == 1 and isinstance(targets[0], (ast.Name, ast.Attribute)) and tname is not None
+        # `kwargs['x'] = …`
         if len(targets) == 1 and isinstance(targets[0], ast.Subscript) and isinstance(targets[0].value, ast.Name) and targets[0].value.id in self.kwdicts:
             d = self.kwdicts[targets[0].value.id]
             sl = targets[0].slice
+            self.expr(value)
             if d is not None and isinstance(sl, ast.Constant) and isinstance(sl.value, str):
                 d[sl.value] = value
             else:
                 self.kwdicts[targets[0].value.id] = None
+            return
+        if not simple:
+            self.expr(value)
+            for t in targets:
+                self.bind_target(t)
+            return
+        # ---- single Name / dotted target
+        # rebinding of the seed parameter
+        if self.seed_name is not None and tname == self.seed_name:
+            e = self.seedexpr_evaluating(value)
+            self.seed_expr['cur'] = e
+            return
+        # kwargs dictionaries
+        if isinstance(targets[0], ast.Name):
+            d = self.dict_literal(value)
+            if d is not None:
+                for v in d.values():
+                    self.expr(v)
+                self.bind_target(targets[0])
+                self.kwdicts[tname] = d
+                return
+        # generator creation
+        if isinstance(value, ast.Call):
+            kind = self.normaliser_kind(value)
+            if kind is not None:
+                for a in value.args[1:]:
+                    self.expr(a)
+                src = ('none',) if self.arg_is_none_or_missing(value) else self.seedexpr_evaluating(self.first_arg(value))
+                self.bind_target(targets[0])
+                v = self.new_var(tname)
+                self.emit(('mkRng', v, src))
+                return
+        nm = self.name_of(value)
+        # alias of a generator
+        if nm is not None and nm in self.vars:
+            v = self.vars[nm]
+            self.bind_target(targets[0])
+            self.vars[tname] = v
+            return
+        if nm is not None and self.seed_name is not None and nm == self.seed_name:
+            self.bind_target(targets[0])
+            return
+        # alias of a module / function / class  (`r = np.random`, `f = _random_complex`)
+        if nm is not None:
+            obj = self.resolve(chain_of(value))
+            if obj is not None and isinstance(obj, (types.ModuleType, types.FunctionType, types.BuiltinFunctionType, types.MethodType, type)) or (obj is not None and callable(obj) and not isinstance(obj, (int, float, str, tuple, list, dict))):
+                self.bind_target(targets[0])
+                self.aliases[tname] = obj
+                return
+            if isinstance(value, ast.Name) and value.id in self.local_defs:
+                self.bind_target(targets[0])
+                self.local_defs.add(tname)
+                return
+            if isinstance(value, ast.Name) and value.id in self.closures:
+                c = self.closures[value.id]
+                self.bind_target(targets[0])
+                self.closures[tname] = c
+                return
+        # lambda assigned to a name
+        if isinstance(value, ast.Lambda):
+            self.bind_target(targets[0])
+            self.local_defs.add(tname)
             self.expr(value)
             return
-        # generator creation / aliasing
-        if tname is not None:
-            if isinstance(value, ast.Call):
-                kind = self.normaliser_kind(value)
-                if kind is not None:
-                    for a in value.args[1:]:
-                        self.expr(a)
-                    src = ('none',) if tr.arg_is_none_or_missing(value) else self.seedexpr_evaluating(self.first_arg(value))
-                    v = self.new_var(tname)
-                    self.emit(('mkRng', v, src))
-                    return
-            nm = self.name_of(value)
-            if nm is not None and nm in self.vars:
-                self.vars[tname] = self.vars[nm]
-                return
-            if nm is not None and nm == self.seed_name:
-                # alias of the seed parameter itself
+        # functools.partial(f, …)
+        if isinstance(value, ast.Call):
+            p = self.partial_info(value)
+            if p is not None:
+                for a in value.args[1:]: self.expr(a)
+                for k in value.keywords: self.expr(k.value)
+                self.bind_target(targets[0])
+                self.partials[tname] = p
                 return
             # closure returned by a seeded helper: `hf_theta = _get_hf_theta(np_rng, theta0)`
-            if isinstance(value, ast.Call):
-                info = self.seeded_call_info(value)
-                if info is not None and isinstance(targets[0], ast.Name):
-                    self.expr(value)
-                    self.closures[tname] = info
-                    return
-            if tname in self.vars:
-                del self.vars[tname]          # the name no longer holds a generator we know
+            info = self.seeded_call_info(value)
+            if info is not None and isinstance(targets[0], ast.Name):
+                self.expr(value)
+                self.bind_target(targets[0])
+                self.closures[tname] = info
+                return
+            # instance of a (numqi or external) class
+            obj = self.resolve(chain_of(value.func)) if chain_of(value.func) is not None else None
+            if inspect.isclass(obj):
+                self.expr(value)
+                self.bind_target(targets[0])
+                self.instances[tname] = [obj]
+                return
+            # result of an unseeded numqi function (possibly a closure): its body was translated where it is called
+            o2 = self.tr.unwrap(obj) if obj is not None else None
+            if isinstance(o2, types.FunctionType) and str(getattr(o2, '__module__', '')).startswith('numqi') and isinstance(targets[0], ast.Name):
+                self.expr(value)
+                self.bind_target(targets[0])
+                self.closure_locals.add(tname)
+                return
+        # a string taken from a class-level list of literals (`tmp0 = self._gate_list[…]`), for getattr
+        if isinstance(value, ast.Subscript):
+            lst = self.resolve(chain_of(value.value)) if chain_of(value.value) is not None else None
+            if isinstance(lst, (list, tuple)) and lst and all(isinstance(x, str) for x in lst):
+                self.expr(value)
+                self.bind_target(targets[0])
+                self.strlists[tname] = list(lst)
+                return
         self.expr(value)
+        self.bind_target(targets[0])
 
     def dict_literal(self, value):
-        if isinstance(value, ast.Call) and isinstance(value.func, ast.Name) and value.func.id == 'dict' and not value.args and all(k.arg for k in value.keywords):
+        if isinstance(value, ast.Call) and isinstance(value.func, ast.Name) and value.func.id == 'dict' and 'dict' not in self.local_names \
+                and not value.args and all(k.arg for k in value.keywords):
             return {k.arg: k.value for k in value.keywords}
         if isinstance(value, ast.Dict) and all(isinstance(k, ast.Constant) and isinstance(k.value, str) for k in value.keys):
             return {k.value: v for k, v in zip(value.keys, value.values)}
+        return None
+
+    def partial_info(self, call):
+        obj = self.resolve(chain_of(call.func)) if chain_of(call.func) is not None else None
+        import functools
+        if obj is functools.partial and call.args:
+            inner = self.resolve(chain_of(call.args[0])) if chain_of(call.args[0]) is not None else None
+            if inner is None:
+                return ('unresolved', None, None)
+            kw = {}
+            for k in call.keywords:
+                if k.arg is None:
+                    return ('unresolved', None, None)
+                kw[k.arg] = k.value
+            return (inner, list(call.args[1:]), kw)
         return None
 
     @staticmethod
@@ -640,8 +956,15 @@ class Ctx:
             return call.args[0]
         return call.keywords[0].value
 
+    @staticmethod
+    def arg_is_none_or_missing(call):
+        if not call.args and not call.keywords:
+            return True
+        if call.args and isinstance(call.args[0], ast.Constant) and call.args[0].value is None:
+            return True
+        return False
+
     def seedexpr_evaluating(self, node):
-        """seed expression of `node`; sub-expressions with effects are evaluated first"""
         e = self.seedexpr(node)
         if e[0] == 'unknown':
             self.expr(node)
@@ -649,28 +972,50 @@ class Ctx:
 
     def normaliser_kind(self, call):
         chain = chain_of(call.func)
-        ext = self.tr.classify_external(chain, self.ent, self.local_names)
-        if ext is not None:
-            lib, attr = ext
-            if lib == 'numpy' and attr in NP_RANDOM_CONSTRUCTORS: return 'numpy'
-            if lib == 'python' and attr in PY_RANDOM_CONSTRUCTORS: return 'python'
+        if chain is None:
             return None
-        obj = self.tr.resolve(chain, self.ent, self.local_names)
-        if obj is not None and id(obj) in self.tr.normalisers:
+        obj = self.resolve(chain)
+        if obj is None:
+            return None
+        if id(obj) in self.tr.normalisers:
             return self.tr.normalisers[id(obj)]
+        if self.tr.module_class(obj) == 'ctor':
+            return 'ctor'
         return None
 
-    def seeded_call_info(self, call):
-        chain = chain_of(call.func)
-        obj = self.tr.resolve(chain, self.ent, self.local_names)
+    def collect_args(self, call, extra_pos=(), extra_kw=None):
+        """positional nodes and keyword nodes of a call (expanding tracked **kwargs); None if it cannot be determined"""
+        pos = list(extra_pos)
+        for a in call.args:
+            if isinstance(a, ast.Starred):
+                return None
+            pos.append(a)
+        kw = dict(extra_kw or {})
+        for k in call.keywords:
+            if k.arg is None:
+                if isinstance(k.value, ast.Name) and self.kwdicts.get(k.value.id) is not None:
+                    kw.update(self.kwdicts[k.value.id])
+                else:
+                    return None
+            else:
+                kw[k.arg] = k.value
+        return pos, kw
+
+    def seeded_call_info(self, call, obj=None, extra_pos=(), extra_kw=None):
+        if obj is None:
+            chain = chain_of(call.func)
+            obj = self.resolve(chain) if chain is not None else None
         ce = self.tr.entity_of_obj(obj)
-        if ce is None:
+        if ce is None or ce.role == 'none':
             return None
-        bound = self.tr.bind(obj, ce, call, self.kwdicts)
+        ak = self.collect_args(call, extra_pos, extra_kw)
+        if ak is None:
+            return (ce.index, ('unknown',))
+        bound = self.tr.bind(obj, ce, ak[0], ak[1])
         if bound is None:
             return (ce.index, ('unknown',))
         if ce.seed_param in bound:
-            return (ce.index, self.seedexpr(bound[ce.seed_param]))
+            return (ce.index, self.seedexpr(bound[ce.seed_param]), bound[ce.seed_param])
         return (ce.index, self.default_of(obj, ce))
 
     def default_of(self, obj, ce):
@@ -680,8 +1025,6 @@ class Ctx:
             return ('unknown',)
         if p.default is None:
             return ('none',)
-        if p.default is inspect.Parameter.empty:
-            return ('unknown',)
         return ('unknown',)
 
     # -- expressions (evaluation order: operands before the operation)
@@ -695,7 +1038,7 @@ class Ctx:
             for x in a.posonlyargs + a.args + a.kwonlyargs + ([a.vararg] if a.vararg else []) + ([a.kwarg] if a.kwarg else []):
                 inner.local_names.add(x.arg)
                 if x.arg not in self.vars:
-                    inner.callback_names.add(x.arg)
+                    inner.params.add(x.arg)
             inner.expr(node.body)
             if inner.stmts:
                 self.emit(('loop', tr.new_id(), inner.stmts))
@@ -711,7 +1054,9 @@ class Ctx:
             self.expr(node.generators[0].iter)
             inner = self.sub()
             for i, g in enumerate(node.generators):
-                inner.bind_target(g.target)
+                for n in ast.walk(g.target):
+                    if isinstance(n, ast.Name) and isinstance(n.ctx, ast.Store):
+                        inner.local_names.add(n.id)
                 if i > 0:
                     inner.expr(g.iter)
                 for c in g.ifs:
@@ -726,127 +1071,319 @@ class Ctx:
         if isinstance(node, ast.Call):
             self.call(node)
             return
+        if isinstance(node, ast.NamedExpr):
+            self.expr(node.value)
+            self.bind_target(node.target)
+            return
+        if isinstance(node, (ast.Await, ast.Yield, ast.YieldFrom)):
+            self.unknown(node, 'await/yield')
+            return
         for child in ast.iter_child_nodes(node):
             if isinstance(child, ast.expr):
                 self.expr(child)
             elif isinstance(child, ast.keyword):
                 self.expr(child.value)
+            elif isinstance(child, ast.comprehension):
+                self.expr(child.iter)
 
     def rng_args(self, call):
         out = []
-        for a in list(call.args) + [k.value for k in call.keywords]:
-            nm = self.name_of(a.value if isinstance(a, ast.Starred) else a)
-            if nm is not None and (nm in self.vars or nm == self.seed_name):
-                out.append(nm)
+        vals = [(a.value if isinstance(a, ast.Starred) else a) for a in call.args] + [k.value for k in call.keywords]
         for k in call.keywords:
             if k.arg is None and isinstance(k.value, ast.Name) and self.kwdicts.get(k.value.id):
-                for v in self.kwdicts[k.value.id].values():
-                    nm = self.name_of(v)
-                    if nm is not None and (nm in self.vars or nm == self.seed_name):
-                        out.append(nm)
+                vals += list(self.kwdicts[k.value.id].values())
+        for a in vals:
+            nm = self.name_of(a)
+            if nm is not None and (nm in self.vars or (self.seed_name is not None and nm == self.seed_name)):
+                out.append(nm)
         return out
 
-    def call(self, node):
-        tr = self.tr
-        func = node.func
-        # 1. a method of a local generator: a draw
-        if isinstance(func, ast.Attribute):
-            base = self.name_of(func.value)
-            if base is not None and base in self.vars:
-                for a in node.args: self.expr(a)
-                for k in node.keywords: self.expr(k.value)
-                self.emit(('draw', self.vars[base]))
-                return
-            if base is not None and base == self.seed_name:
-                # drawing from the un-normalised seed parameter: normalise it first
-                for a in node.args: self.expr(a)
-                for k in node.keywords: self.expr(k.value)
-                v = self.new_var(None)
-                self.emit(('mkRng', v, ('param',)))
-                self.emit(('draw', v))
-                return
-        chain = chain_of(func)
-        if chain is None:
-            # callee is itself an expression (`f(a)(b)`, `getattr(self, x)(i)`): evaluate it, then the arguments
-            self.expr(func)
-        # 2. generator constructors used as expressions (not assigned): `np.random.default_rng(seed).normal()`
-        kind = self.normaliser_kind(node) if chain is not None else None
-        if kind is not None:
-            for a in node.args[1:]: self.expr(a)
-            src = ('none',) if tr.arg_is_none_or_missing(node) else self.seedexpr_evaluating(self.first_arg(node))
-            v = self.new_var(None)
-            self.emit(('mkRng', v, src))
-            return
-        # arguments
-        skip = set()
-        info = None
-        obj = tr.resolve(chain, self.ent, self.local_names) if chain is not None else None
-        ce = tr.entity_of_obj(obj)
-        if ce is not None:
-            bound = tr.bind(obj, ce, node, self.kwdicts)
-            if bound is None:
-                info = (ce.index, ('unknown',))
-            elif ce.seed_param in bound:
-                e = self.seedexpr(bound[ce.seed_param])
-                info = (ce.index, e)
-                if e[0] != 'unknown':
-                    skip.add(id(bound[ce.seed_param]))
-            else:
-                info = (ce.index, self.default_of(obj, ce))
+    def eval_args(self, node, skip=()):
         for a in node.args:
             if id(a) not in skip: self.expr(a.value if isinstance(a, ast.Starred) else a)
         for k in node.keywords:
             if id(k.value) not in skip: self.expr(k.value)
-        # 3. global generators
-        ext = tr.classify_external(chain, self.ent, self.local_names) if chain is not None else None
-        if ext is not None:
-            lib, attr = ext
-            if lib == 'numpy' and attr in NP_RANDOM_INERT:
-                return
-            if lib == 'python' and attr == 'SystemRandom':
-                v = self.new_var(None); self.emit(('mkRng', v, ('none',))); return
-            self.emit(('drawGlobal', lib))
+
+    def draw_from(self, nm):
+        if self.seed_name is not None and nm == self.seed_name:
+            v = self.new_var(None); self.emit(('mkRng', v, self.seed_expr['cur'])); self.emit(('draw', v))
+        else:
+            self.emit(('draw', self.vars[nm]))
+
+    def emit_effects(self, eff, node):
+        for lib in sorted(eff):
+            if lib == 'fresh':
+                v = self.new_var(None); self.emit(('mkRng', v, ('none',)))
+            elif lib == 'unknown':
+                self.unknown(node, 'numqi callee with unclassified calls')
+            else:
+                self.emit(('drawGlobal', lib))
+
+    def call_object(self, node, obj, extra_pos=(), extra_kw=None):
+        """a call whose callee is the python object `obj` (module-level function / class / method)"""
+        tr = self.tr
+        rargs = self.rng_args(node)
+        if id(obj) in tr.normalisers or tr.module_class(obj) == 'ctor':
+            self.eval_args(node, skip={id(self.first_arg(node))} if (node.args or node.keywords) else ())
+            src = ('none',) if self.arg_is_none_or_missing(node) else self.seedexpr_evaluating(self.first_arg(node))
+            v = self.new_var(None)
+            self.emit(('mkRng', v, src))
             return
-        # 4. a translated (seeded) numqi callee
+        # a translated (seeded) numqi callee
+        info = self.seeded_call_info(node, obj, extra_pos, extra_kw)
         if info is not None:
+            skip = {id(info[2])} if len(info) > 2 and info[1][0] != 'unknown' else set()
+            self.eval_args(node, skip)
             self.emit(('call', info[0], info[1]))
             return
-        # 5. closure obtained from a seeded helper, called later
-        if chain is not None and len(chain) == 1 and chain[0] in self.closures:
-            f, e = self.closures[chain[0]]
-            self.emit(('call', f, e))
+        self.eval_args(node)
+        o2 = tr.unwrap(obj)
+        mod = str(getattr(o2, '__module__', '') or '')
+        # `SomeAutogradFunction.apply(...)` of a numqi torch.autograd.Function: forward and backward bodies
+        owner = getattr(obj, '__self__', None)
+        if inspect.isclass(owner) and str(getattr(owner, '__module__', '')).startswith('numqi') and getattr(obj, '__name__', '') == 'apply':
+            eff = set()
+            for nm in ('forward', 'backward'):
+                f = inspect.getattr_static(owner, nm, None)
+                f = f.__func__ if isinstance(f, (staticmethod, classmethod)) else f
+                eff |= tr.summary_fn(f, owner) if isinstance(f, types.FunctionType) else {'unknown'}
+            self.emit_effects(eff, node)
             return
-        # 6. an unseeded numqi function / class: does it (transitively) touch a global generator?
-        if obj is not None and id(obj) not in tr.normalisers:
-            o2 = obj.__func__ if isinstance(obj, (staticmethod, classmethod)) else obj
-            if isinstance(o2, (types.FunctionType, type)) and str(getattr(o2, '__module__', '')).startswith('numqi'):
-                t = tr.taint(o2)
-                for lib in sorted(t):
-                    if lib == 'fresh':
-                        v = self.new_var(None); self.emit(('mkRng', v, ('none',)))
-                    else:
-                        self.emit(('drawGlobal', lib))
-                if self.rng_args(node):
-                    self.emit(('unknownCall',))     # a generator handed to a function that declares no seed / generator parameter
-                return
-        # 7. everything else: external library / builtin / call through an object
-        rargs = self.rng_args(node)
-        if rargs:
-            if chain is not None and len(chain) == 1 and chain[0] in self.callback_names:
-                # user-supplied callback that is handed the generator (contract: it draws only from it)
-                tr.callbacks.append(f'{self.ent.name}: {chain[0]}(…{rargs[0]}…)')
-                nm = rargs[0]
-                if nm == self.seed_name:
-                    v = self.new_var(None); self.emit(('mkRng', v, ('param',))); self.emit(('draw', v))
-                else:
-                    self.emit(('draw', self.vars[nm]))
+        # an unseeded numqi function / class
+        if mod.startswith('numqi') and (isinstance(o2, types.FunctionType) or inspect.isclass(o2)):
+            ce = tr.entity_of_obj(o2)
+            if ce is not None and ce.role == 'none':
+                self.emit(('call', ce.index, ('const', 0)))      # program without a seed parameter: its own body decides
             else:
-                self.emit(('unknownCall',))
+                self.emit_effects(tr.summary(o2), node)
+            if rargs:
+                self.unknown(node, 'generator handed to a numqi function without a seed/generator parameter')
             return
-        if obj is None and chain is not None and chain[0] not in ('np', 'numpy', 'scipy', 'torch', 'math', 'itertools', 'functools', 'cvxpy', 'opt_einsum'):
-            txt = '.'.join(chain)
-            if chain[0] in ('self',) or chain[0] in self.local_names:
-                tr.unresolved[txt] = tr.unresolved.get(txt, 0) + 1
+        cls = tr.module_class(o2)
+        if cls in ('numpy', 'python', 'torch'):
+            # scipy.stats style `random_state=` is not reachable here (scipy.stats is not allow-listed)
+            self.emit(('drawGlobal', cls))
+            return
+        if cls == 'fresh':
+            v = self.new_var(None); self.emit(('mkRng', v, ('none',))); return
+        if cls == 'pure':
+            name = getattr(o2, '__name__', '')
+            if name == 'getattr' and mod == 'builtins':
+                self.unknown(node, 'getattr')       # plain getattr as a value; getattr(...)(...) is handled by the caller
+                return
+            if rargs:
+                self.unknown(node, 'generator handed to an external function')
+            return
+        self.unknown(node, 'callee not in the allow-list')
+
+    def call(self, node):
+        tr = self.tr
+        func = node.func
+        # ---- methods: receiver is a tracked generator
+        if isinstance(func, ast.Attribute):
+            base = self.name_of(func.value)
+            if base is not None and base in self.vars:
+                self.eval_args(node)
+                self.emit(('draw', self.vars[base]))
+                return
+            if base is not None and self.seed_name is not None and base == self.seed_name:
+                self.eval_args(node)
+                self.draw_from(base)
+                return
+        chain = chain_of(func)
+        # ---- callee is itself a call / subscript / …
+        if chain is None:
+            if isinstance(func, ast.Call):
+                # functools.partial(f, …)(…)
+                p = self.partial_info(func)
+                if p is not None:
+                    for a in func.args[1:]: self.expr(a)
+                    for k in func.keywords: self.expr(k.value)
+                    if p[0] == 'unresolved':
+                        self.eval_args(node); self.unknown(node, 'partial of an unresolved callee'); return
+                    self.call_object(node, p[0], p[1], p[2]); return
+                # getattr(obj, name)(…)
+                g = self.getattr_targets(func)
+                if g is not None:
+                    self.eval_args(node)
+                    if g == 'unknown':
+                        self.unknown(node, 'getattr'); return
+                    for obj in g:
+                        fake = ast.Call(func=ast.Name(id='_', ctx=ast.Load()), args=node.args, keywords=node.keywords)
+                        sub = self.sub(); sub.call_object(fake, obj)
+                        self.stmts += [s for s in sub.stmts]
+                    return
+                # f(a)(b): the inner call is classified on its own; a seeded helper returning a closure is a call of its program
+                info = self.seeded_call_info(func)
+                self.expr(func)
+                self.eval_args(node)
+                if info is not None:
+                    self.emit(('call', info[0], info[1]))
+                else:
+                    self.unknown(node, 'result of a call is called')
+                return
+            if isinstance(func, ast.Attribute):
+                # method of an expression value: `np.linalg.qr(x)[0].conj()`, `tmp0.T.conj()` handled below through root
+                pass
+            else:
+                self.expr(func)
+                self.eval_args(node)
+                self.unknown(node, 'callee is an expression')
+                return
+        # ---- a plain name / dotted name
+        if chain is not None:
+            head = chain[0]
+            if len(chain) == 1:
+                if head in self.local_defs or head in self.closure_locals:
+                    self.eval_args(node); return                     # body already inlined where it was defined / created
+                if head == 'self' and self.ent.cls is not None:
+                    self.eval_args(node)
+                    self.call_instance(node, self.ent.cls, '__call__'); return
+                if head in self.closures:
+                    self.eval_args(node)
+                    f, e = self.closures[head][0], self.closures[head][1]
+                    self.emit(('call', f, e)); return
+                if head in self.partials:
+                    p = self.partials[head]
+                    if p[0] == 'unresolved':
+                        self.eval_args(node); self.unknown(node, 'partial of an unresolved callee'); return
+                    self.call_object(node, p[0], p[1], p[2]); return
+                if head in self.instances and self.instances[head] is not None:
+                    self.eval_args(node)
+                    self.call_instance(node, self.instances[head], '__call__'); return
+                if head in self.params and head not in self.aliases:
+                    self.eval_args(node)
+                    r = self.rng_args(node)
+                    if r:
+                        tr.callbacks.append(f'{self.ent.name}: {head}(…{r[0]}…)')
+                        self.draw_from(r[0])
+                    else:
+                        tr.contracts[f'{head}(…)'] = tr.contracts.get(f'{head}(…)', 0) + 1
+                    return
+            obj = self.resolve(chain)
+            if obj is not None and (callable(obj) or inspect.isclass(obj)):
+                self.call_object(node, obj)
+                return
+            if '.'.join(chain) in self.instances and self.instances['.'.join(chain)] is not None:
+                self.eval_args(node)
+                self.call_instance(node, self.instances['.'.join(chain)], '__call__')
+                return
+        # ---- method call on a value
+        if isinstance(func, ast.Attribute):
+            meth = func.attr
+            if isinstance(func.value, ast.Call) and self.normaliser_kind(func.value) is not None:
+                inner = func.value
+                src = ('none',) if self.arg_is_none_or_missing(inner) else self.seedexpr_evaluating(self.first_arg(inner))
+                v = self.new_var(None)
+                self.emit(('mkRng', v, src))
+                self.eval_args(node)
+                self.emit(('draw', v))
+                return
+            self.expr(func.value)
+            self.eval_args(node)
+            if meth in RANDOM_METHODS_TORCH:
+                self.emit(('drawGlobal', 'torch')); return
+            if meth in RANDOM_METHODS_NUMPY:
+                rs = [k.value for k in node.keywords if k.arg == 'random_state']
+                nm = self.name_of(rs[0]) if rs else None
+                if nm is not None and nm in self.vars:
+                    self.emit(('draw', self.vars[nm]))
+                else:
+                    self.emit(('drawGlobal', 'numpy'))
+                return
+            recv = self.name_of(func.value)
+            root = root_name(func.value)
+            # typed receivers: `self.manifold(...)` is handled in the name branch; here `self.attr.method(...)`, `model.method(...)`
+            if recv is not None and recv in self.instances and self.instances[recv] is not None:
+                self.call_instance(node, self.instances[recv], meth); return
+            if self.rng_args(node):
+                self.unknown(node, 'generator handed to a method'); return
+            if root is not None and root in self.params and root not in self.aliases:
+                tr.contracts[f'{root}.….{meth}(…)'] = tr.contracts.get(f'{root}.….{meth}(…)', 0) + 1
+                return
+            if meth in PURE_METHODS:
+                tr.used_pure.add('.' + meth)
+                return
+            self.unknown(node, 'method not in the allow-list')
+            return
+        # ---- unresolved dotted / plain name
+        self.eval_args(node)
+        if chain is not None and len(chain) >= 2 and '.'.join(chain[:2]) in self.instances and chain[0] == 'self':
+            inst = self.instances['.'.join(chain[:2])]
+            if inst is not None:
+                self.call_instance(node, inst, chain[2] if len(chain) > 2 else '__call__'); return
+        self.unknown(node, 'callee cannot be resolved')
+
+    def getattr_targets(self, call):
+        """`getattr(x, name)` as a callee: list of candidate objects, 'unknown', or None if `call` is not a getattr"""
+        if not (isinstance(call.func, ast.Name) and call.func.id == 'getattr' and 'getattr' not in self.local_names and len(call.args) >= 2):
+            return None
+        base, name = call.args[0], call.args[1]
+        names = None
+        if isinstance(name, ast.Constant) and isinstance(name.value, str):
+            names = [name.value]
+        elif isinstance(name, ast.Name) and name.id in self.strlists:
+            names = self.strlists[name.id]
+        if names is None:
+            return 'unknown'
+        bchain = chain_of(base)
+        if bchain == ['self'] and self.ent.cls is not None:
+            bobj = self.ent.cls
+        else:
+            bobj = self.resolve(bchain) if bchain is not None else None
+        if bobj is None:
+            return 'unknown'
+        out = []
+        for n in names:
+            try:
+                o = inspect.getattr_static(bobj, n) if inspect.isclass(bobj) else getattr(bobj, n)
+            except AttributeError:
+                return 'unknown'
+            if isinstance(o, (staticmethod, classmethod)):
+                o = o.__func__
+            out.append(o)
+        return out
+
+    def call_instance(self, node, classes, meth):
+        """method `meth` of an instance of one of `classes`"""
+        if inspect.isclass(classes):
+            classes = [classes]
+        for cls in classes:
+            self.call_instance1(node, cls, meth)
+
+    def call_instance1(self, node, cls, meth):
+        tr = self.tr
+        mod = str(getattr(cls, '__module__', '') or '')
+        if mod.startswith('numqi'):
+            try:
+                import torch
+                is_mod = issubclass(cls, torch.nn.Module)
+            except Exception:
+                is_mod = False
+            name = 'forward' if (meth == '__call__' and is_mod) else meth
+            try:
+                f = inspect.getattr_static(cls, name)
+            except AttributeError:
+                f = None
+            if isinstance(f, (staticmethod, classmethod)):
+                f = f.__func__
+            if isinstance(f, types.FunctionType):
+                ce = tr.entity_of_obj(f)
+                if ce is not None and ce.role != 'none':
+                    info = self.seeded_call_info(node, f)
+                    self.emit(('call', info[0], info[1])); return
+                if str(getattr(f, '__module__', '')).startswith('numqi'):
+                    self.emit_effects(tr.summary_fn(f, cls), node); return
+            if meth in PURE_METHODS and f is not None and not str(getattr(f, '__module__', 'numqi')).startswith('numqi'):
+                return      # inherited from an external pure base class (torch.nn.Module.parameters …)
+            self.unknown(node, f'method {meth} of {cls.__name__}')
+            return
+        c = tr.module_class(cls)
+        if c == 'pure' and (meth in PURE_METHODS or meth == '__call__'):
+            if meth in RANDOM_METHODS_TORCH:
+                self.emit(('drawGlobal', 'torch'))
+            return
+        self.unknown(node, f'method {meth} of external class {cls.__name__}')
 
 
 # ---------------------------------------------------------------------- emission
@@ -907,7 +1444,8 @@ def closed_py(nprog, defd, stmts):
 
 def emit_lean(tr, path):
     lines = ['/-', 'GENERATED by harness/c10_translate.py from the numqi sources — do not edit.',
-             'One seed-flow program per function / method / class with a `seed` (or generator) parameter.', '-/',
+             'One seed-flow program per function / method / class of the anchored files with a `seed` (or generator) parameter,',
+             'or that touches a generator without having one.', '-/',
              'import NumqiModel.SeedFlow', '', 'namespace Numqi.SeedFlow.Generated', 'open Numqi.SeedFlow', '']
     listed = [e for e in tr.order if e.listed]
     for ent in listed:
